@@ -56,24 +56,38 @@ ASSUMPTIONS = [
     "MD5/SHA-2/AES are the functions hashlib/cryptography compute; AES-CBC decrypt inverts encrypt for equal key/IV",
 ]
 STATEMENT_STATUS: Dict[str, str] = {
+    "C10_main": "proved: for every configuration (V1/V2 RC4 any length, V4 RC4/AESV2/Identity, V5 R5/R6 AESV3; any P, ID, "
+                "EncryptMetadata, crypt-filter name, passwords, IVs) opening with the user password selects the registry's "
+                "handler class, recovers the writer's file key, reports perms = bits 3/4/5 of P and getobj returns every "
+                "direct object as before encryption; assumptions: PrimsOK, and for V5 the one no-collision clause below",
+    "C10_open": "proved (handler selection + init_params checks + authenticate, all configurations)",
     "rc4_involution": "proved (every key, every data); rc4_involution_except for Arcfour's own API",
-    "objkey_agree": "proved; objkey_agree_aes needs key >= 11 bytes (pdfminer counts the sAlT in min(len,16))",
+    "objkey_agree": "proved; objkey_agree_aes needs key >= 11 bytes; v4_file_key_length proves every V4 file key has 16 bytes, "
+                    "so the deviation min(len(key)+9,16) vs min(n+5,16) is unreachable (also tested for lengths 1..32)",
     "computeKey_is_alg2": "proved: compute_encryption_key (constants regenerated from pdfdocument.py) = ISO Algorithm 2",
-    "user_pw_accepts": "proved for R2-R4, any P >= -2^32, ID, EncryptMetadata, key length (md5 digests 16 bytes)",
-    "owner_pw_accepts": "proved for R2-R4 (owner_recovers_user: 20 RC4 layers peeled by rc4_involution)",
-    "authenticate_user_accepts": "proved (Length >= 8, P != 0, Latin-1 password)",
-    "r56_user_accepts": "proved for the user branch; r56_authenticate_user_partial: full authenticate() under the "
-                        "explicit hypothesis that the owner validation hash does not collide for the user password",
-    "r56_owner_accepts": "proved; r56_authenticate_owner proved",
+    "user_pw_accepts / owner_pw_accepts / authenticate_user_accepts": "proved for R2-R4 (owner_recovers_user: 20 RC4 layers)",
+    "authenticate_owner_accepts_partial": "partial: authenticate() tries the user path first; remaining assumption: the owner "
+                                          "password does not pass the U check unless it pads to the user's 32 bytes (H1)",
+    "r56_user_accepts / r56_owner_accepts / r56_authenticate_owner / r56_authenticate_user_same_pw": "proved",
+    "r56_authenticate_user_partial": "partial: exactly one assumption left - up != op -> H(up, ov, U) != H(op, ov, U) "
+                                     "(the owner validation hash of this document does not collide between its two passwords)",
     "r6_fuel_suffices": "proved unconditionally (the loop of _r6_password ends by round 288)",
-    "C10_roundtrip_bytes": "proved for RC4/AESV2/AESV3/Identity, every objid/genno/IV, padding removed",
-    "C10_roundtrip": "proved for whole objects (strings, containers, stream dictionaries, Metadata rule, XRef exemption)",
-    "once_only": "once_only_not_elsewhere / once_only_xref / once_only_string proved; a counting (trace) formulation is future work",
+    "C10_roundtrip_bytes / C10_roundtrip": "proved for RC4/AESV2/AESV3/Identity, whole objects, every objid/genno/IV, padding "
+                                           "removed; encryptBytes_ne_nil removes the former non-emptiness hypothesis",
+    "once_only_trace": "proved: the instrumented traversal (decipherAllT) makes exactly expectedCalls o - every non-empty string "
+                       "once at any depth, the payload once, nothing for XRef streams - and projects to the pure model; "
+                       "once_only_trace_elsewhere (objstm / trailer / Encrypt: zero calls); once_only_second_read_cached / "
+                       "_uncached (cache state machine); tied to pdfminer by comparing real decipher calls each run",
     "perms_bits": "proved (bits 3/4/5 of the stored P); perms_of_signed_P relates signed and unsigned P",
-    "C10_rejects_partial": "partial: rejection of other passwords under two explicit no-collision hypotheses "
-                           "(cryptographic assumption); rejects_non_latin1, r56_rejects_partial, r6_rejects_saslprep_refused proved",
+    "C10_rejects_writer_partial": "partial (R2-R4): exactly two assumptions - H1 second-preimage resistance of the U check, "
+                                  "H2 no other password yields an RC4 key decrypting O to the padded user password; "
+                                  "C10_rejects_generic is assumption-free",
+    "r56_rejects_writer_partial": "partial (R5/R6): the wrong password's two validation hashes do not collide with the owner's / user's",
+    "rejects_non_latin1 / r6_rejects_saslprep_refused": "proved",
+    "saslprep_model_eq_spec": "proved: control flow of _saslprep.saslprep = RFC 4013 / RFC 3454 section 6 for every table content; "
+                              "sasl_tables_are_rfc4013 pins the regenerated table list; trusted: stringprep table contents, NFKC 3.2",
     "C10_aes_padding_cex": "proved counter-example for the pinned (pre-fix) AES decryption",
-    "SASLprep, MD5, SHA-2, AES": "abstract parameters (Prims); not modelled",
+    "MD5, SHA-2, AES": "abstract parameters (Prims); not modelled",
 }
 
 CLASSIFIERS = {
@@ -331,7 +345,7 @@ def gen_document(rng, layout: str) -> Tuple[Dict[int, Tuple[int, Any]], int, int
     objs[info] = (0, {"Title": gen_string(rng), "Author": b"A. U. Thor", "Empty": b"",
                       "CreationDate": b"D:20240101000000Z", "Custom": gen_value(rng)})
     n += 1
-    free_gen = layout == "table"
+    free_gen = True
     for _ in range(rng.randrange(1, 6)):
         oid = n
         if free_gen and rng.random() < 0.35:
@@ -359,7 +373,7 @@ def gen_document(rng, layout: str) -> Tuple[Dict[int, Tuple[int, Any]], int, int
                           flate=False)
         objs[oid] = (gen, v)
     members: List[int] = []
-    if layout == "xrefstm":
+    if layout in ("xrefstm", "hybrid"):
         cand = [k for k, (g, v) in objs.items() if g == 0 and not isinstance(v, R.PStream)]
         members = sorted(k for k in cand if rng.random() < 0.7)
     return objs, 1, info, members
@@ -404,8 +418,9 @@ def same_password_variants(rng, cfg: R.Cfg) -> List[str]:
 
 class Case:
     def __init__(self, cfg: R.Cfg, objs, root, info, members, layout: str, indirect: bool, wseed: int,
-                 passwords: List[str], eol: bytes = b"\n"):
+                 passwords: List[str], eol: bytes = b"\n", old=None):
         self.cfg, self.objs, self.root, self.info, self.members = cfg, objs, root, info, members
+        self.old: Dict[int, Tuple[int, Any]] = dict(old or {})    # first-revision versions (incremental update)
         self.layout, self.indirect, self.wseed, self.passwords, self.eol = layout, indirect, wseed, passwords, eol
 
     def to_json(self) -> Dict[str, Any]:
@@ -413,13 +428,15 @@ class Case:
                 "objs": [[n, g, tree_to_json(v)] for n, (g, v) in sorted(self.objs.items())],
                 "root": self.root, "info": self.info, "members": self.members, "layout": self.layout,
                 "indirect": self.indirect, "wseed": self.wseed,
-                "passwords": [[ord(c) for c in p] for p in self.passwords], "eol": self.eol.hex()}
+                "passwords": [[ord(c) for c in p] for p in self.passwords], "eol": self.eol.hex(),
+                "old": [[n, g, tree_to_json(v)] for n, (g, v) in sorted(self.old.items())]}
 
     @staticmethod
     def from_json(j: Dict[str, Any]) -> "Case":
         return Case(R.Cfg.from_json(j["cfg"]), {n: (g, tree_from_json(v)) for n, g, v in j["objs"]}, j["root"],
                     j["info"], j["members"], j["layout"], j["indirect"], j["wseed"],
-                    ["".join(chr(c) for c in p) for p in j["passwords"]], bytes.fromhex(j.get("eol", "0a")))
+                    ["".join(chr(c) for c in p) for p in j["passwords"]], bytes.fromhex(j.get("eol", "0a")),
+                    {n: (g, tree_from_json(v)) for n, g, v in j.get("old", [])})
 
     def write(self, encrypted: bool = True) -> R.Written:
         rng = random.Random(self.wseed)
@@ -427,16 +444,27 @@ class Case:
         if encrypted:
             R.derive(self.cfg, rng)
         return R.write_document(self.objs, self.root, cfg, rng, self.layout, self.indirect, self.info,
-                                self.members, self.eol)
+                                self.members, self.eol, self.old)
 
 
 def gen_case(rng, force: Optional[str] = None) -> Case:
     cfg = gen_cfg(rng, force)
-    layout = "xrefstm" if rng.random() < 0.4 else "table"
+    layout = rng.choice(["table", "table", "xrefstm", "xrefstm", "hybrid"])
     objs, root, info, members = gen_document(rng, layout)
+    old = {}
+    if rng.random() < 0.3:
+        # incremental update: some objects have an older version in a first revision
+        cand = [n for n, (g, v) in objs.items() if n > info]
+        for n in rng.sample(cand, min(len(cand), rng.choice([1, 2]))):
+            g, v = objs[n]
+            if n in members or not isinstance(v, R.PStream):
+                ov: Any = [b"old version", gen_string(rng)]
+            else:
+                ov = R.PStream({}, b"old " + gen_string(rng), flate=False)
+            old[n] = (g, ov)
     pws = [cfg.user, cfg.effective_owner()] + same_password_variants(rng, cfg) + wrong_passwords(rng, cfg)
     return Case(cfg, objs, root, info, members, layout, rng.random() < 0.5, rng.randrange(1 << 30), pws,
-                rng.choice([b"\n", b"\n", b"\r\n"]))
+                rng.choice([b"\n", b"\n", b"\r\n"]), old)
 
 
 WILD = ["V3", "V0", "R-mismatch", "filter", "stmf-strf", "cfm-unknown", "cfm-wrong-class", "strf-undefined",
@@ -555,6 +583,10 @@ def check_case(ctx: C.Ctx, case: Case, do_text: bool, quiet: bool = False) -> Li
             fail("a password that is neither the user nor the owner password was accepted", pw,
                  "PDFPasswordIncorrect", "opened", "accepted-wrong")
             continue
+        klen = len(doc.decipher.__self__.key)
+        want = 5 if cfg.R == 2 else 32 if cfg.R >= 5 else 16 if cfg.V == 4 else min(cfg.length // 8, 16)
+        if klen != want:
+            fail("file key has an unexpected length", pw, want, klen, "keylen")
         flags = (doc.is_printable, doc.is_modifiable, doc.is_extractable)
         expf = (bool(cfg.P & 4), bool(cfg.P & 8), bool(cfg.P & 16))
         if flags != expf:
@@ -582,7 +614,7 @@ def check_case(ctx: C.Ctx, case: Case, do_text: bool, quiet: bool = False) -> Li
                 got = ["t:" + hx(x.get_data())] + canon_impl(x.attrs.get("ID"))
             except Exception as e:  # noqa: BLE001
                 got = ["EXC:" + type(e).__name__]
-            exp = ["t:" + hx(wr.xref_rows)] + canon_ref([cfg.id0, cfg.id0[::-1]] if cfg.have_id else None)
+            exp = ["t:" + hx(wr.xref_rows)] + canon_ref([cfg.id0, cfg.id0[::-1]] if cfg.have_id and wr.xref_trailer else None)
             if got != exp:
                 a, b = first_diff(exp, got)
                 fail("the cross-reference stream read through getobj was decrypted (it is never encrypted)", pw,
@@ -623,7 +655,7 @@ def shrink_case(ctx: C.Ctx, case: Case, f: C.Failure) -> C.Failure:
     def build(sub: List[int]) -> Case:
         objs = {n: case.objs[n] for n in case.objs if n in keep or n in sub}
         return Case(case.cfg, objs, case.root, case.info, [m for m in case.members if m in objs], case.layout,
-                    case.indirect, case.wseed, [pw], case.eol)
+                    case.indirect, case.wseed, [pw], case.eol, {n: o for n, o in case.old.items() if n in objs})
 
     def still(sub: List[int]) -> bool:
         try:
@@ -654,7 +686,8 @@ def run_case(ctx: C.Ctx, case: Case, do_text: bool, branch: str, shrink: bool = 
                                    "layout": case.layout, "objects": len(case.objs),
                                    "user": cfg.user[:12], "owner": cfg.owner[:12]}, branch=branch)
     ctx.branch("cfg:V%d/R%d/%s/%d" % (cfg.V, cfg.R, cfg.method, cfg.length))
-    ctx.branch("layout:" + case.layout + (":indirect-encrypt" if case.indirect else ""))
+    ctx.branch("layout:" + case.layout + (":indirect-encrypt" if case.indirect else "") +
+               (":incremental" if case.old else ""))
     ctx.branch("encmeta:" + str(cfg.encrypt_metadata))
     if not cfg.have_id:
         ctx.branch("id:absent")
@@ -759,6 +792,45 @@ def run_samples(ctx: C.Ctx) -> None:
                                    {"sample": name, "password": pw}, base_text[:60], t[:60], {"kind": "sample-text"}))
 
 
+def run_aes_keylen(ctx: C.Ctx) -> None:
+    """Documents the remark on decrypt_aes128's `min(len(key), 16)` (the 4 salt bytes are counted, Algorithm 1
+    says min(n + 5, 16)): for every file-key length a V4 handler can hold (always 16, checked on every opened V4
+    document below; here all lengths 11..32) pdfminer's per-object AES key equals Algorithm 1's, and for the
+    unreachable lengths 1..10 the two differ (theorem objkey_agree_aes has `11 <= |key|` as hypothesis)."""
+    from pdfminer.pdfdocument import PDFStandardSecurityHandlerV4
+    rng = ctx.rng
+    for L in range(1, 33):
+        key = bytes(rng.randrange(256) for _ in range(L))
+        objid, genno = rng.choice([1, 255, 65536, (1 << 24) - 1]), rng.choice([0, 1, 65535])
+        plain = bytes(rng.randrange(256) for _ in range(rng.choice([0, 1, 15, 16, 17, 40])))
+        cfg = R.Cfg(4, 4, 128, "AESV2", -4, b"", "", "")
+        cfg.key = key
+        k_std = hashlib_md5(key + objid.to_bytes(4, "little")[:3] + genno.to_bytes(4, "little")[:2] + b"sAlT")[:min(L + 5, 16)]
+        iv = bytes(rng.randrange(256) for _ in range(16))
+        if len(k_std) == 16:
+            stored = iv + R.aes_cbc_enc(k_std, iv, R.pkcs7_pad(plain))
+        else:
+            stored = None
+        h = object.__new__(PDFStandardSecurityHandlerV4)
+        h.key = key
+        ctx.case(("aeskey", L, key), True, branch="aeskey:reachable" if L >= 11 else "aeskey:unreachable")
+        if stored is None:
+            continue      # Algorithm 1 gives a key shorter than 16 bytes: not an AES-128 key at all
+        try:
+            got = h.decrypt_aes128(objid, genno, stored)
+        except Exception as e:  # noqa: BLE001
+            got = ("EXC:" + type(e).__name__).encode()
+        if got != plain:
+            ctx.fail(C.Failure("decrypt_aes128 does not use Algorithm 1's object key for a reachable key length",
+                               {"keylen": L, "key": key.hex(), "objid": objid, "genno": genno}, plain.hex(),
+                               got.hex()[:80], {"kind": "aes-objkey", "keylen": L}))
+
+
+def hashlib_md5(b: bytes) -> bytes:
+    import hashlib
+    return hashlib.md5(b).digest()
+
+
 # ----------------------------------------------------------------------------- entry points
 
 def run_corpus(ctx: C.Ctx) -> None:
@@ -790,6 +862,7 @@ def run(ctx: C.Ctx) -> None:
     rng = ctx.rng
     run_corpus(ctx)
     run_samples(ctx)
+    run_aes_keylen(ctx)
     kinds = ["r2", "r3", "r4rc4", "r4aes", "r4id", "r5", "r6"]
     cases: List[Case] = []
     n = ctx.n(120, 4000)
